@@ -122,12 +122,14 @@ func sExec(sem *datasemaphore.DataSemaphore, in sIn, warn *[]string) sOut {
 	return out
 }
 
-func genSIn(t *rapid.T, allowTerminate bool) sIn {
-	ops := []int{sTry, sTry, sTry, sAcquire, sAcquire, sRelease, sRelease, sRelease, sProcessing, sProcessing, sAvailable, sAvailable}
+var sOps = []int{sTry, sTry, sTry, sAcquire, sAcquire, sRelease, sRelease, sRelease, sProcessing, sProcessing, sAvailable, sAvailable}
+
+func genSIn(t *rapid.T, allowTerminate bool, focus []int) sIn {
+	ops := sOps
 	if allowTerminate {
-		ops = append(ops, sTerminate)
+		ops = append(append([]int(nil), sOps...), sTerminate)
 	}
-	in := sIn{Op: rapid.SampledFrom(ops).Draw(t, "op")}
+	in := sIn{Op: pickOp(t, ops, focus)}
 	switch in.Op {
 	case sTry, sAcquire, sRelease:
 		in.N = uint32(rapid.IntRange(0, 3).Draw(t, "num"))
@@ -157,12 +159,13 @@ func TestC28Semaphore(t *testing.T) {
 		}
 		lens, maxprocs := drawShape(t, 40)
 		perts := drawPerts(t, lens)
+		focus := drawFocus(t, sOps)
 		progs := make([][]sIn, len(lens))
 		descr := make([][]string, len(lens))
 		blocking := 0
 		for g := range progs {
 			for i := 0; i < lens[g]; i++ {
-				in := genSIn(t, allowTerm)
+				in := genSIn(t, allowTerm, focus)
 				if in.Op == sAcquire && in.Timeout > 0 {
 					blocking++
 				}
